@@ -13,5 +13,5 @@ rsync -a --exclude .git /repo/ $scratch/ || exit 2
 cd /verif && VERIF_REPO=$scratch ./check $id $tier | cut -c1-400
 rc=${PIPESTATUS[0]}
 tag=$(python3 -c "import hashlib,os,sys; print(hashlib.sha1(os.path.realpath(sys.argv[1]).encode()).hexdigest()[:10])" $scratch)
-rm -rf $scratch /verif/bin/*-$tag.test /verif/harness/.alt-$tag.mod /verif/harness/.alt-$tag.sum
+rm -rf $scratch /verif/bin/*-$tag.test /verif/harness/.alt-$tag.mod /verif/harness/.alt-$tag.sum /var/tmp/verif-fp-*-$tag /var/tmp/verif-fp-*-$tag.lock
 exit $rc
